@@ -919,8 +919,11 @@ def process(template_path, repo, meta, twin=None, stub=()):
                     sections = [("hint", "start", "assert(false);")] + sections
                 frag3 = splice(frag2, sections, name)
                 out.append(frag3.strip()[1:-1])
+                n_clos = len(closure_headers(frag2, code_mask(frag2)))
+                n_clos_spec = len([sc for sc in sections if sc[0] == "closure"])
                 meta["items"].append({
                     "kind": "stmts", "file": rel, "container": container, "name": name, "emitted_as": name + "[range]",
+                    "unannotated_closures": max(0, n_clos - n_clos_spec),
                     "wrapper": wrapper, "twin_key": "stmts#%d" % n_stmts,
                     "span": [o + s0, o + e1], "sha256": hashlib.sha256(body[s0:e1].encode()).hexdigest(),
                     "rewrites": counts, "from": fa, "to": ta})
@@ -1118,9 +1121,12 @@ def process(template_path, repo, meta, twin=None, stub=()):
                 "rewrites": counts, "stubbed": stub_reason, "body_lines": body.count("\n") + 1})
             continue
         out.append(sig + "\n" + spec_text + body3)
+        n_clos = len(closure_headers(body2, code_mask(body2)))
+        n_clos_spec = len([s for s in sections if s[0] == "closure"])
         meta["items"].append({
             "kind": "fn", "file": rel, "container": container, "name": name, "emitted_as": new_name,
             "span": [hs, c + 1], "sha256": hashlib.sha256(S.src[hs:c + 1].encode()).hexdigest(),
+            "unannotated_closures": max(0, n_clos - n_clos_spec),
             "rewrites": counts, "loops_annotated": len([s for s in sections if s[0] == "loop"]),
             "hints": len([s for s in sections if s[0] == "hint"]),
             "body_lines": body.count("\n") + 1,
